@@ -39,11 +39,13 @@ package check
 // a request runs.
 //@ ghost wfrw(int) bool
 //@ ghost wfinv(int) bool
+//@ ghost astsize(int) int
+//@ axiom astsize_pos: forall r int :: astsize(r) >= 1
 //@ axiom wfrw_nonnil: forall r int :: wfrw(r) ==> r != 0
 //@ axiom wfinv_nonnil: forall r int :: wfinv(r) ==> r != 0
 //@ spec wfchild(c ast.Child) bool = c != nil && (istype(c, *ast.SubjectSetRewrite) ==> wfrw(as(c, *ast.SubjectSetRewrite))) && (istype(c, *ast.InvertResult) ==> wfinv(as(c, *ast.InvertResult))) && (istype(c, *ast.ComputedSubjectSet) ==> as(c, *ast.ComputedSubjectSet) != nil) && (istype(c, *ast.TupleToSubjectSet) ==> as(c, *ast.TupleToSubjectSet) != nil)
-//@ unfold wfrw(r *ast.SubjectSetRewrite) bool = forall i in 0..len(r.Children) :: wfchild(r.Children[i])
-//@ unfold wfinv(v *ast.InvertResult) bool = wfchild(v.Child)
+//@ unfold wfrw(r *ast.SubjectSetRewrite) bool = forall i in 0..len(r.Children) :: wfchild(r.Children[i]) && astsize(as(r.Children[i], *ast.SubjectSetRewrite)) < astsize(r)
+//@ unfold wfinv(v *ast.InvertResult) bool = wfchild(v.Child) && astsize(as(v.Child, *ast.SubjectSetRewrite)) < astsize(v)
 
 // ---- C02: the effective depth. eff(r, g) = g if r <= 0 or g < r, else r.
 //@ spec eff(r int, g int) int = (r <= 0 || g < r) ? g : r
@@ -66,6 +68,7 @@ package check
 //@   ensures[C03] result-inv: res.Err != nil ==> res.Membership != checkgroup.IsMember
 
 //@ func (*Engine).checkIsAllowed
+//@   decreases[C15] restDepth + 1, 1, 0
 //@   props C02 C03 C15
 //@   modifies nothing
 //@   requires wfe(e) && r != nil && ctx != nil
@@ -83,6 +86,7 @@ package check
 //@   pure
 
 //@ func (*Engine).checkDirect
+//@   decreases[C15] restDepth + 1, 3, 0
 //@   props C02 C03 C15
 //@   modifies nothing
 //@   requires wfe(e) && r != nil
@@ -96,6 +100,7 @@ package check
 //@   ensures[C03] err-propagates: faulted && !old(faulted) ==> lastsent(resultCh).Err != nil
 
 //@ func (*Engine).checkExpandSubject
+//@   decreases[C15] restDepth + 1, 3, 0
 //@   props C02 C03 C15
 //@   modifies nothing
 //@   requires wfe(e) && r != nil
@@ -103,6 +108,8 @@ package check
 //@   ensures[C02] depth-exhausted: restDepth <= 0 ==> result == checkgroup.UnknownMemberFunc
 
 //@ func (*Engine).checkExpandSubject$1
+//@   requires captured-depth: restDepth >= 1
+//@   decreases[C15] restDepth + 1, 2, 0
 //@   props C02 C03 C15
 //@   noframe
 //@   like functype::checkgroup.CheckFunc
@@ -142,6 +149,7 @@ package check
 //@   pure
 
 //@ func (*Engine).checkSubjectSetRewrite
+//@   decreases[C15] restDepth + 1, 0, astsize(rewrite)
 //@   props C02 C03 C15
 //@   modifies nothing
 //@   requires wfe(e) && tuple != nil && wfrw(rewrite) && ctx != nil
@@ -153,6 +161,8 @@ package check
 //@   loop 2 invariant handled != nil
 
 //@ func (*Engine).checkSubjectSetRewrite$1
+//@   requires captured-depth: restDepth >= 1
+//@   decreases[C15] restDepth, 2, 0
 //@   props C03 C15
 //@   like functype::checkgroup.CheckFunc
 //@   requires wfe(e) && tuple != nil
@@ -174,6 +184,7 @@ package check
 //@   ensures result.Err != nil ==> result.Membership != checkgroup.IsMember
 
 //@ func (*Engine).checkInverted
+//@   decreases[C15] restDepth + 1, 0, astsize(inverted)
 //@   props C02 C03 C15
 //@   modifies nothing
 //@   requires wfe(e) && tuple != nil && wfinv(inverted) && ctx != nil
@@ -186,18 +197,22 @@ package check
 //@   requires check != nil
 
 //@ func (*Engine).checkComputedSubjectSet
+//@   decreases[C15] restDepth + 1, 0, 0
 //@   props C02 C03 C15
 //@   modifies nothing
 //@   requires wfe(e) && r != nil && subjectSet != nil && ctx != nil
 //@   ensures result != nil
 
 //@ func (*Engine).checkTupleToSubjectSet
+//@   decreases[C15] restDepth + 1, 0, 0
 //@   props C02 C03 C15
 //@   modifies nothing
 //@   requires wfe(e) && tuple != nil && subjectSet != nil
 //@   ensures result != nil
 
 //@ func (*Engine).checkTupleToSubjectSet$1
+//@   requires captured-depth: restDepth >= 0
+//@   decreases[C15] restDepth, 2, 0
 //@   props C03 C15
 //@   like functype::checkgroup.CheckFunc
 //@   requires wfe(e) && tuple != nil && subjectSet != nil
